@@ -218,7 +218,22 @@ def run(rep, tier, seed, proof_ok):
                 "process / reloaded into the same process (quick: 2 configurations per history, one with the debugging level really "
                 "off; thorough: four more drawn from the option x argument grid); the same checks hold under each, and every call yields, "
                 "executes, stores and commits what it does under the default configuration; distinct = distinct (program, victim, "
-                "class, configuration); non-trivial = the victim is not the root or something completed before the failure")
+                "class, configuration); non-trivial = the victim is not the root or something completed before the failure"
+                "; thread dimension (c10_threads.py): generated pipelines whose kept steps (dds.keep / @data_function, some loading a path "
+                "kept earlier in the same evaluation, some waiting for a kept sub-step handed to yet another thread, root kept or not) are "
+                "reached from other threads than the caller of dds.eval (ThreadPoolExecutor.submit / map one by one or in parallel, "
+                "threading.Thread, a pool that outlives the evaluation, thread-in-thread, Timer; dds.eval called from the main or from "
+                "another thread) x the failing function (a step on a worker thread, a step on the calling thread after worker threads "
+                "completed others, a sub-step, the root) x the exception classes x store kinds (local, local+lru, memory) x empty / "
+                "populated store (after a variable was reassigned) x the cause removed outside the code (same signatures, same process) / by "
+                "an edit (new process); history: loads, failing evaluation, loads in the process + raw data directory + loads from a fresh "
+                "process, the same again, another step evaluated on its own, cause removed, pipeline twice, loads; checked against plain "
+                "execution, against the control history that never fails and against the store below dds (sync_paths / store_blob calls of "
+                "every thread, committed paths, raw data directory): same exception object, no commit from any thread, paths and loads as "
+                "before, no blob for the failing or a waiting function, not left inside an evaluation on the calling thread nor on the "
+                "threads of the surviving pool, failure not cached, completed steps reused, the later evaluations return, commit and execute "
+                "what the control history does minus the completed steps; non-trivial = a keep is reached on another thread before the "
+                "failure or for the failing function itself")
     plans = [plan(seed * 1000 + i, tier) for i in range(n)]
     jobs = [(pl, cfg) for pl in plans for cfg in [None] + pl["configs"]]
     with cf.ThreadPoolExecutor(max_workers=C.NPROC) as ex:
@@ -251,6 +266,8 @@ def run(rep, tier, seed, proof_ok):
         rep.sample({"victim": pl["victim"], "class": pl["kind"], "entry": pl["call"], "first": fail1["impl"]["out"], "log": fail1["impl"]["log"],
                     "configurations": [cfg_name(c) for c in pl["configs"]]}, cap=3)
     rep.extra["input_distribution"] = {"histories": len(plans), "exception_classes": kinds, "configurations": dims}
+    import c10_threads
+    rep.extra["input_distribution"]["threads"] = c10_threads.run(rep, tier, seed, proof_ok)
 
 
 class _Echo:
@@ -284,6 +301,9 @@ def _events(evs):
 
 def replay(path):
     r = json.load(open(path))["replay"]
+    if "tplan" in r:
+        import c10_threads
+        return c10_threads.replay(r)
     if "victim" not in r:
         import c01
         return c01.replay(path)
